@@ -535,6 +535,10 @@ def path_str(e):
     return None
 
 
+import re as _re
+STATE_PLACE = _re.compile(r"(?!self\.)[a-z_][a-z0-9_]*\.state")
+
+
 class Evaluator:
     """env: dict of place-string -> value.  Values: ('v', Enum, Variant, payload) for enum variants,
     True/False, ints, ('unit',), ('opaque', text).  `hooks` lets the caller interpret method calls
@@ -542,6 +546,10 @@ class Evaluator:
 
     def __init__(self, env, mcall=None, call=None, on_effect=None):
         self.env = dict(env)
+        # the queue state is read through a lock guard held in a local (`core.state`, `queue_core.state`, ...): whatever the
+        # local is called, `<local>.state` denotes the place the caller put in `env`
+        sp = [k for k in self.env if isinstance(k, str) and STATE_PLACE.fullmatch(k)]
+        self.state_place = sp[0] if len(sp) == 1 else None
         self.mcall = mcall
         self.call = call
         self.effects = []
@@ -569,7 +577,7 @@ class Evaluator:
             elif k == "break":
                 raise Flow("break")
             elif k == "assign":
-                place = path_str(s[1])
+                place = self.canon(path_str(s[1]))
                 if place is None:
                     raise Unsupported("assignment target %r" % (s[1],))
                 self.env[place] = self.eval(s[2])
@@ -658,7 +666,7 @@ class Evaluator:
                 return ("v", "?", e[1][0], None)
             return ("opaque", s)
         if k == "field":
-            s = path_str(e)
+            s = self.canon(path_str(e))
             if s is not None and s in self.env:
                 return self.env[s]
             return ("opaque", s or "field")
@@ -748,7 +756,7 @@ class Evaluator:
                 return self.eval(body)
             raise Unsupported("no arm matches %r" % (v,))
         if k == "assignexpr":
-            place = path_str(e[1])
+            place = self.canon(path_str(e[1]))
             if place is None:
                 raise Unsupported("assignment target %r" % (e[1],))
             self.env[place] = self.eval(e[2])
@@ -763,6 +771,11 @@ class Evaluator:
         if k in ("closure", "loop", "struct", "index"):
             return ("opaque", k)
         raise Unsupported("expression kind %r" % (k,))
+
+    def canon(self, place):
+        if place is not None and self.state_place is not None and STATE_PLACE.fullmatch(place):
+            return self.state_place
+        return place
 
     def as_bool(self, v):
         if isinstance(v, bool):
